@@ -116,7 +116,8 @@ def _random_cases(tier, seed):
   rng = np.random.default_rng([seed, 404])
   n = 9 if tier == 'quick' else 70
   max_M = 12 if tier == 'quick' else 22
-  kinds = ['constant', 'linear', 'random', 'random', 'tropopause']
+  kinds = ['constant', 'linear', 'random', 'random', 'tropopause', 'cooling', 'isothermal_top',
+           'plateau_cooling']
   out = []
   for _ in range(n):
     M_ = int(rng.integers(4, max_M + 1))
